@@ -77,3 +77,10 @@ pub open spec fn smin_nat(a: nat, b: nat) -> nat { if a <= b { a } else { b } }
 // i64::unsigned_abs (Rust reference: |x| as u64, exact for i64::MIN)
 pub assume_specification[i64::unsigned_abs](x: i64) -> (r: u64)
     ensures r == (if x >= 0 { x as int } else { -(x as int) });
+
+/// anything that derefs to a byte slice at the call sites of write_all (&[u8], &Vec<u8>, &[u8; N], &Tag)
+pub trait VAsBytes { spec fn bytes(&self) -> Seq<u8>; }
+impl VAsBytes for [u8] { open spec fn bytes(&self) -> Seq<u8> { self@ } }
+impl VAsBytes for Vec<u8> { open spec fn bytes(&self) -> Seq<u8> { self@ } }
+impl<const N: usize> VAsBytes for [u8; N] { open spec fn bytes(&self) -> Seq<u8> { self@ } }
+
